@@ -205,6 +205,12 @@ func (s *sdRun) mainProp() string {
 }
 
 func (s *sdRun) viol(prop, class, msg string, exp, got any) {
+	if mp := s.mainProp(); prop != mp {
+		// an oracle of another property fired inside this property's workload:
+		// report it under the running property, keeping the origin in the class
+		class = "via-" + prop + "-" + class
+		prop = mp
+	}
 	key := prop + "|" + class
 	if s.seen[key] {
 		return
